@@ -1,4 +1,4 @@
-// hook for train/train_state.rs (child module: `use super::*;` reaches the file's private items)
+// hook for train/train_state.rs
 #[cfg(nrel_altrios_verif)]
 mod native {
     #[allow(unused_imports)]
@@ -6,9 +6,22 @@ mod native {
     use crate::verif_hook::runner::*;
     use serde_json::{json, Value};
 
+    fn call(o: &mut TrainState, fname: &str, a: &[Value]) -> CallRes {
+        match fname {
+            "train_state::set_link_and_offset" => {
+                let tpc: crate::track::PathTpc = serde_json::from_value(a[0].clone()).map_err(|e| Unsup(format!("PathTpc: {e}")))?;
+                unit(set_link_and_offset(o, &tpc))
+            }
+            _ => Err(Unsup(format!("no runner entry for {fname}"))),
+        }
+    }
+
     impl FileEntry for TrainStateTag {
-        fn call(_req: &Value) -> Value {
-            json!({"kind": "unsupported", "msg": "no entries yet"})
+        fn call(req: &Value) -> Value {
+            match req["recv_ty"].as_str().unwrap_or("") {
+                "TrainState" => run::<TrainState>(req, call),
+                t => json!({"kind": "unsupported", "msg": format!("no runner for {t}")}),
+            }
         }
     }
 }
